@@ -19,6 +19,9 @@ LEVEL = "proof"
 RULE = ("60% of the cases use the tree before the call (ReinitIndexes and/or a first ToDistanceMatrix, then 1..3 public edits that "
         "invalidate the index: two tip names exchanged, a tip renamed so that the name order changes, Reroot, RotateInternalNodes; "
         "nothing re-indexed; the model and the oracle run on the tree as dumped just before the call); "
+        "30% of the trees carry negative branch lengths (-1/4, -1/64, -3, -5/2, -2^-30, -3*2^-35, -63/64, -65/64, -100; never -1) on tip and "
+        "inner branches, with cut thresholds negative / equal to a negative length / one step around it; the oracles are evaluated in "
+        "full on them (path sums and the cut compare the stored numbers; the property text names zero or absent lengths only); "
         "random multifurcating trees (2..14 tips, 40 in thorough; rooted/unrooted; parent slot at random positions as after "
         "re-rootings; lengths all/mixed/none with zeros; supports mixed/all/none) x the three metrics for ToDistanceMatrix; "
         "collections of 1..5 trees on the same taxa (different shapes) x metric for AvgDistanceMatrix, plus collections where one "
@@ -48,9 +51,26 @@ def degree_one_root(g, rng, t):
     e = {"len": g.length("mixed"), "sup": g.support("mixed"), "pv": None, "coms": []}
     return {"name": rng.choice(["", "r"]), "coms": [], "slots": [(e, sub)]}
 
+NEG = [Fraction(-1, 4), Fraction(-1, 64), Fraction(-3), Fraction(-5, 2), Fraction(-1, 2**30), Fraction(-3, 2**35),
+       Fraction(-63, 64), Fraction(-65, 64), Fraction(-100)]
+
+def negfy(rng, t, p=0.25):
+    """negative branch lengths (neighbour-joining trees have them), never exactly -1 (the 'absent' sentinel), on tip and inner branches"""
+    import copy as _c
+    t = _c.deepcopy(t)
+    for x in preorder(t):
+        for e, _ch in kids(x):
+            if e["len"] is not None and rng.random() < p:
+                e["len"] = rng.choice(NEG)
+    return t
+
 def rand_tree(g, rng, tier, lo=2, prefix="t", ntips=None):
     t = rand_tree0(g, rng, tier, lo, prefix, ntips)
-    return tinyfy(rng, t) if rng.random() < 0.3 else t
+    if rng.random() < 0.3:
+        t = tinyfy(rng, t)
+    if rng.random() < 0.3:
+        t = negfy(rng, t)
+    return t
 
 def rand_tree0(g, rng, tier, lo=2, prefix="t", ntips=None):
     hi = 14 if tier != "thorough" else 40
@@ -106,6 +126,10 @@ def gen(rng, tier):
             ths.append(max(ls))
             ths.append(max(ls) + Fraction(1, 64))
         ths.append(g.dyadic(256, 64))
+        neg = [x for x in ls if x < 0]
+        if neg:
+            x = rng.choice(neg)
+            ths += [x, x + Fraction(1, 64), x - Fraction(1, 64), Fraction(-1, 128)]
         tiny = [x for x in ls if x in TINY]
         if tiny:
             x = rng.choice(tiny)
